@@ -5,6 +5,8 @@ from ..cfg import CFG, assigned_value
 from ..lib import (params, returns_of, is_none_const, dominating_literals)
 from . import cachefam as F
 
+from . import extra as X
+
 EXPLANATION = ("make-only-when-absent in the recipe store's get_bytes; declared keys visible through contains / is_dir / keys / "
                "listdir / get_metadata; life-cycle fields of recipe metadata; relative references resolved against the recipe's "
                "directory translated to a root key; one rule for the stored format across the three places that serialise under a "
@@ -225,3 +227,7 @@ def run(chk):
     rule_routing(chk, "C08.6")
     rule_every_exit_materialises(chk, "C08.7")
     chk.xref("NewRecipeSpecStore.update_recipes dereferences `d` after testing it for None and reuses a stale `recipe` after a failed construction")
+    X.rule_remove_both_unconditional(chk, "C08.8")
+    from . import c14
+    c14.rule_prefix_algebra(chk, "C08.9")
+    c14.rule_last_mount_wins(chk, "C08.10")
